@@ -480,11 +480,152 @@ Proof.
   - right. rewrite (sym_degrees_err s e Hl Hd). split; reflexivity.
 Qed.
 
-(** * Sharding of the enumeration: 16 shards by the subset of {0,1,2,3} *)
-Definition TAIL : list Z := [4; 5; 6; 7; 8; 9; 10; 11].
+(** * Memoisation of the per-root search, used only to make the enumeration cheap
+
+    [_largest_chord_kind_from_relative_pitches] depends only on the relative pitch list, and
+    the same few thousand lists recur over the 73548 enumerated cases.  The table below maps
+    a key of the list to (list, result); a lookup is used only if the stored list equals the
+    requested one, otherwise the search is run directly, so [lk_fast] equals the model
+    function for EVERY argument whatever the table contains (soundness does not depend on
+    which lists were tabulated). *)
+Inductive tree (A : Type) := Leaf | Node (l : tree A) (v : option A) (r : tree A).
+Arguments Leaf {A}.
+Arguments Node {A} l v r.
+
+Fixpoint tfind {A} (p : positive) (t : tree A) : option A :=
+  match t with
+  | Leaf => None
+  | Node l v r => match p with xH => v | xO q => tfind q l | xI q => tfind q r end
+  end.
+
+Fixpoint tadd {A} (p : positive) (a : A) (t : tree A) : tree A :=
+  match p with
+  | xH => match t with Leaf => Node Leaf (Some a) Leaf | Node l _ r => Node l (Some a) r end
+  | xO q => match t with Leaf => Node (tadd q a Leaf) None Leaf | Node l v r => Node (tadd q a l) v r end
+  | xI q => match t with Leaf => Node Leaf None (tadd q a Leaf) | Node l v r => Node l v (tadd q a r) end
+  end.
+
+Lemma tfind_leaf : forall A p, @tfind A p Leaf = None.
+Proof. destruct p; reflexivity. Qed.
+
+Lemma tfind_tadd_same : forall A p (a : A) t, tfind p (tadd p a t) = Some a.
+Proof. induction p; intros a t; destruct t; cbn; auto. Qed.
+
+Lemma tfind_tadd_other : forall A p q (a : A) t, p <> q -> tfind q (tadd p a t) = tfind q t.
+Proof.
+  induction p; intros q a t Hne; destruct t, q; cbn; try rewrite tfind_leaf; try reflexivity;
+    try congruence; try (rewrite IHp; [try rewrite tfind_leaf; reflexivity | congruence]).
+Qed.
+
+Definition key (rel : list Z) : positive := Z.to_pos (fold_left (fun acc x => acc * 16 + x + 1) rel 1).
+
+Definition entry := (list Z * res (option kind * list degree))%type.
+
+Definition build_table (rels : list (list Z)) : tree entry :=
+  fold_left (fun t rel => tadd (key rel) (rel, largest_kind_from_rel rel) t) rels Leaf.
+
+Definition table_sound (t : tree entry) : Prop :=
+  forall k rel v, tfind k t = Some (rel, v) -> v = largest_kind_from_rel rel.
+
+Lemma build_table_sound : forall rels, table_sound (build_table rels).
+Proof.
+  intros rels. unfold build_table.
+  assert (H : forall t, table_sound t ->
+            table_sound (fold_left (fun t rel => tadd (key rel) (rel, largest_kind_from_rel rel) t) rels t)).
+  { induction rels as [|rel rels IH]; intros t Ht; cbn [fold_left]; [exact Ht|].
+    apply IH. intros k rel' v Hf. destruct (Pos.eq_dec (key rel) k) as [<-|Hne].
+    - rewrite tfind_tadd_same in Hf. injection Hf as <- <-. reflexivity.
+    - rewrite tfind_tadd_other in Hf by exact Hne. exact (Ht _ _ _ Hf). }
+  apply H. intros k rel v Hf. rewrite tfind_leaf in Hf. discriminate.
+Qed.
+
+Lemma zlist_eqb_eq : forall a b, zlist_eqb a b = true -> a = b.
+Proof.
+  induction a as [|x a IH]; intros [|y b]; cbn; intros H; try discriminate; [reflexivity|].
+  apply andb_prop in H. destruct H as [H1 H2]. apply Z.eqb_eq in H1. subst. f_equal. exact (IH _ H2).
+Qed.
+
+Definition lk_fast (tbl : tree entry) (rel : list Z) : res (option kind * list degree) :=
+  match tfind (key rel) tbl with
+  | Some (rel', v) => if zlist_eqb rel' rel then v else largest_kind_from_rel rel
+  | None => largest_kind_from_rel rel
+  end.
+
+Lemma lk_fast_eq : forall tbl, table_sound tbl -> forall rel, lk_fast tbl rel = largest_kind_from_rel rel.
+Proof.
+  intros tbl Ht rel. unfold lk_fast. destruct (tfind (key rel) tbl) as [[rel' v]|] eqn:Hf; [|reflexivity].
+  destruct (zlist_eqb rel' rel) eqn:He; [|reflexivity].
+  apply zlist_eqb_eq in He. subst rel'. exact (Ht _ _ _ Hf).
+Qed.
+
+Lemma fold_left_ext : forall {A B} (F G : A -> B -> A) l a0,
+  (forall a b, F a b = G a b) -> fold_left F l a0 = fold_left G l a0.
+Proof.
+  intros A B F G l. induction l as [|b l IH]; intros a0 H; cbn [fold_left]; [reflexivity|].
+  rewrite H. apply IH. exact H.
+Qed.
+
+Lemma choose_root_ext : forall f g l, (forall r, f r = g r) -> choose_root f l = choose_root g l.
+Proof.
+  intros f g l H. unfold choose_root. apply fold_left_ext. intros acc root. rewrite H. reflexivity.
+Qed.
+
+Definition name_ord_fast (tbl : tree entry) (order : list Z) (bass : Z) : res figure :=
+  let others := pyset_iter (filter (fun x => negb (x =? bass)) order) in
+  let cands := bass :: others in
+  name_with (fun root => lk_fast tbl (rel_of cands root)) bass others.
+
+Lemma name_ord_fast_eq : forall tbl, table_sound tbl -> forall order bass,
+  name_ord_fast tbl order bass = name_ord order bass.
+Proof.
+  intros tbl Ht order bass. unfold name_ord_fast, name_ord, name_core, name_with. cbv zeta.
+  f_equal. apply choose_root_ext. intros r. apply lk_fast_eq. exact Ht.
+Qed.
+
+Definition check_small_fast tbl (ks : list Z) : bool :=
+  forallb (fun b => rt_ok ks b (name_ord_fast tbl (t8_order ks) b)) ks.
+Definition check_big_fast tbl (S : list Z) : bool :=
+  forallb (fun b => rt_ok S b (name_ord_fast tbl S b)) S.
+Definition check_set_fast tbl (S : list Z) : bool :=
+  if len S <=? 4 then forallb (check_small_fast tbl) (perms S) else check_big_fast tbl S.
+
+Lemma forallb_eq : forall {A} (f g : A -> bool) l, (forall x, f x = g x) -> forallb f l = forallb g l.
+Proof. intros A f g l H. induction l as [|x l IH]; cbn; [reflexivity|]. rewrite H, IH. reflexivity. Qed.
+
+Lemma check_set_fast_eq : forall tbl, table_sound tbl -> forall S, check_set_fast tbl S = check_set S.
+Proof.
+  intros tbl Ht S. unfold check_set_fast, check_set. destruct (len S <=? 4).
+  - apply forallb_eq. intros ks. unfold check_small_fast, check_small. apply forallb_eq. intros b.
+    rewrite name_ord_fast_eq by exact Ht. reflexivity.
+  - unfold check_big_fast, check_big. apply forallb_eq. intros b.
+    rewrite name_ord_fast_eq by exact Ht. reflexivity.
+Qed.
+
+(** the relative pitch lists worth tabulating: every injective sequence of at most 4 classes
+    containing 0 (any order), and every ascending list of at least 5 classes starting with 0 *)
+Fixpoint seqs (n : nat) (l : list Z) : list (list Z) :=
+  match n with
+  | O => [[]]
+  | S m => [] :: flat_map (fun x => map (cons x) (seqs m (filter (fun y => negb (y =? x)) l))) l
+  end.
+Definition ALL_RELS : list (list Z) :=
+  filter (fun r => zmem 0 r) (seqs 4 PCS) ++
+  map (cons 0) (filter (fun r => 4 <=? len r) (subs [1; 2; 3; 4; 5; 6; 7; 8; 9; 10; 11])).
+
+(** * Sharding of the enumeration: 4 shards by the subset of {0,1} *)
+Definition TAIL : list Z := [2; 3; 4; 5; 6; 7; 8; 9; 10; 11].
 Definition shard (pre : list Z) : list (list Z) := map (app pre) (subs TAIL).
 
-Lemma all_sets_split : all_sets = flat_map shard (subs [0; 1; 2; 3]).
+Definition check_shard (pre : list Z) : bool :=
+  let tbl := build_table ALL_RELS in forallb (check_set_fast tbl) (shard pre).
+
+Lemma check_shard_sound : forall pre, check_shard pre = true -> forallb check_set (shard pre) = true.
+Proof.
+  intros pre H. unfold check_shard in H. cbv zeta in H. rewrite <- H.
+  apply forallb_eq. intros S. symmetry. apply check_set_fast_eq. apply build_table_sound.
+Qed.
+
+Lemma all_sets_split : all_sets = flat_map shard (subs [0; 1]).
 Proof. vm_compute. reflexivity. Qed.
 
 Lemma forallb_flat_map : forall {A B} (f : B -> bool) (g : A -> list B) l,
